@@ -166,19 +166,20 @@ fn value_pool(thorough: bool) -> Vec<Option<Lit>> {
         Some(Lit::S("a".into())), Some(Lit::S("m".into())), Some(Lit::S("z".into())),
         Some(Lit::B(true)), Some(Lit::B(false)),
         Some(Lit::Arr(vec![Lit::I(1), Lit::S("a".into())])),
+        Some(Lit::Null), // present with value null — not the same as missing
     ];
     if thorough {
         p.extend([Some(Lit::I(-1)), Some(Lit::I(9007199254740993)), Some(Lit::I(i64::MIN)),
                   Some(Lit::F(F0_5)), Some(Lit::F(0)), Some(Lit::F(NEG_ZERO)), Some(Lit::F(TINY)),
-                  Some(Lit::F(INF)), Some(Lit::F(TWO53)), Some(Lit::F(F2)), Some(Lit::S("".into())), Some(Lit::S("1".into())), Some(Lit::Null),
+                  Some(Lit::F(INF)), Some(Lit::F(TWO53)), Some(Lit::F(F2)), Some(Lit::S("".into())), Some(Lit::S("1".into())),
                   Some(Lit::Arr(vec![])), Some(Lit::Arr(vec![Lit::F(F1), Lit::F(NAN)]))]);
     }
     p
 }
 
 fn literal_pool(thorough: bool) -> Vec<Lit> {
-    let mut p = vec![Lit::I(1), Lit::F(F1), Lit::F(F1_5), Lit::F(F0_5), Lit::S("m".into()), Lit::B(true)];
-    if thorough { p.extend([Lit::I(0), Lit::I(2), Lit::I(9007199254740992), Lit::F(0), Lit::F(F2), Lit::S("a".into()), Lit::B(false), Lit::Null]); }
+    let mut p = vec![Lit::I(1), Lit::F(F1), Lit::F(F1_5), Lit::F(F0_5), Lit::S("m".into()), Lit::B(true), Lit::Null];
+    if thorough { p.extend([Lit::I(0), Lit::I(2), Lit::I(9007199254740992), Lit::F(0), Lit::F(F2), Lit::S("a".into()), Lit::B(false)]); }
     p
 }
 
@@ -204,8 +205,12 @@ fn other_atoms() -> Vec<Fx> {
         v.push(Fx::Other(op, Opd::Lit(Lit::I(1)), Opd::Field("y")));
         v.push(Fx::Other(op, Opd::Field("x"), Opd::Lit(Lit::S("ma".into()))));
     }
-    v.push(Fx::Cmp(Op::Eq, Opd::Field("x"), Opd::Lit(Lit::Null)));
-    v.push(Fx::Cmp(Op::Ne, Opd::Field("x"), Opd::Lit(Lit::Null)));
+    for op in OPS {
+        v.push(Fx::Cmp(op, Opd::Lit(Lit::Null), Opd::Field("x")));
+        v.push(Fx::Cmp(op, Opd::Field("y"), Opd::Lit(Lit::Null)));
+    }
+    v.push(Fx::Cmp(Op::Eq, Opd::Lit(Lit::Null), Opd::Lit(Lit::Null)));
+    v.push(Fx::Atom(Opd::Lit(Lit::Null)));
     v.push(Fx::Cmp(Op::Lt, Opd::Lit(Lit::I(1)), Opd::Lit(Lit::I(2))));
     v.push(Fx::Atom(Opd::Field("x")));
     v.push(Fx::Atom(Opd::Field("y")));
@@ -350,6 +355,13 @@ pub fn run(ctx: &mut Ctx, _name: &str) {
         (Fx::Or(Box::new(x(Lit::I(1), Op::Gt)), Box::new(Fx::Cmp(Op::Gt, Opd::Field("y"), Opd::Lit(Lit::I(1))))), vec![("x", None), ("y", Some(Lit::I(5)))]),
     ];
     for (fx, ev) in &witnesses { run_expr(ctx, &rt, fx, &[ev.clone()]); }
+    // the null literal: `x == null` / `x != null` on x present-with-null, missing, and non-null; inside a conjunction
+    for op in [Op::Eq, Op::Ne] {
+        run_expr(ctx, &rt, &x(Lit::Null, op), &[vec![("x", Some(Lit::Null))], vec![("x", None)], vec![("x", Some(Lit::I(7)))]]);
+    }
+    run_expr(ctx, &rt,
+        &Fx::And(Box::new(x(Lit::Null, Op::Eq)), Box::new(Fx::Cmp(Op::Eq, Opd::Field("y"), Opd::Lit(Lit::I(7))))),
+        &[vec![("x", Some(Lit::Null)), ("y", Some(Lit::I(7)))], vec![("x", None), ("y", Some(Lit::I(7)))]]);
     // witness of the repaired "filter dropped" defect: `x > 1 and y in z` on x = 0
     run_expr(ctx, &rt,
         &Fx::And(Box::new(x(Lit::I(1), Op::Gt)), Box::new(Fx::Other(Oth::In, Opd::Field("y"), Opd::Field("z")))),
@@ -366,6 +378,7 @@ pub fn run(ctx: &mut Ctx, _name: &str) {
         Fx::Cmp(Op::Gt, Opd::Field("y"), Opd::Lit(Lit::I(1))), Fx::Cmp(Op::Le, Opd::Field("y"), Opd::Lit(Lit::F(F1))), Fx::Cmp(Op::Eq, Opd::Field("y"), Opd::Lit(Lit::S("m".into()))),
         Fx::Cmp(Op::Lt, Opd::Field("x"), Opd::Field("y")), Fx::Atom(Opd::Field("y")), Fx::Cmp(Op::Ne, Opd::Lit(Lit::I(1)), Opd::Field("x")),
         Fx::Other(Oth::In, Opd::Field("x"), Opd::Field("y")), Fx::Other(Oth::NotIn, Opd::Lit(Lit::S("a".into())), Opd::Field("y")),
+        x(Lit::Null, Op::Eq), Fx::Cmp(Op::Ne, Opd::Field("y"), Opd::Lit(Lit::Null)),
     ];
     let mut d2: Vec<Fx> = Vec::new();
     for a in &red {
